@@ -509,6 +509,16 @@ fn run_random(rng: &mut Rng, out: &mut CaseOut) {
         };
         sheets[rng.below(3)].push(rule);
     }
+    // a rule repeated verbatim at the end of its sheet (A, B, A)
+    if rng.chance(1, 5) {
+        for sh in sheets.iter_mut() {
+            if sh.len() >= 2 && rng.chance(1, 2) {
+                let k = rng.below(sh.len() - 1);
+                let dup = sh[k].clone();
+                sh.push(dup);
+            }
+        }
+    }
     // inline styles on some elements
     let mut inline_styles: Vec<(String, Vec<(bool, bool, (u8, u8, u8))>)> = Vec::new();
     let mut counter = 0;
